@@ -284,7 +284,7 @@ RULE_ADDENDA = {
     "C11": "One case in four has a second user entry of the same name for the other scope with rules of its own; questions are repeated from a second connection coming from that scope; one case in four loads a second policy into the running server in mid-case and judges later requests, sent on new connections, by it.",
     "C13": "One case in three loads a second generated configuration into the running server and probes the same addresses again, judged by the second configuration.",
     "C07": "One step in six is pipelined: a second request (acceptable, bad header, or even sequence number) on a session id of its own arrives in the same read. Sequence faults (even, replayed, jumping, restarted numbers) are aimed at sessions that are in the middle of an exchange one time in eight.",
-    "C10": "Odd START packets (any action/type/service/minor combination) are mostly logins, optionally without data, and three times in four are followed by what a prompted client would send: the user name if it was missing, then the right password. Authenticator variants include a hash option that is a well-formed hash with something behind it.",
+    "C10": "One case in three goes on after the history: a second generated configuration (and keychain) is loaded into the running server and a second history runs on a new connection from the same address, judged by the second configuration. Odd START packets (any action/type/service/minor combination) are mostly logins, optionally without data, and three times in four are followed by what a prompted client would send: the user name if it was missing, then the right password. Authenticator variants include a hash option that is a well-formed hash with something behind it.",
     "C15": "A third configuration C (secret configurations renamed so that nothing can be built, no filters) takes part in the reloads, and every lookup round also probes 10.1.9.7, which A and B deny and C cannot serve: any answer but a refusal mixes two configurations.",
     "C19": "Thorough adds native coverage-guided fuzzing (FuzzC19Seen): the bytes the server sees after removing its pad are the fuzz input, seeded with well-formed requests one or two bytes short or long; same classifier oracle.",
     "C01": "Every value is also built the way callers build it - New<Type>(Set<Field>(...)...) for the header and the seven bodies - and must encode (bytes and error) exactly like the struct literal. Thorough adds FuzzC01Rapid: the same property with the generators' choices taken from a coverage-guided fuzzer's byte string (rapid.MakeFuzz).",
